@@ -116,6 +116,27 @@ PROPS["C09"] = {
     "assumptions": INST_ASSUME + ["Spec/Formulas.lean transcribes IEEE 1588-2019 11.2-11.4 (trusted)"],
 }
 
+def state_part(obs):
+    for part in obs.split(" | "):
+        if part.startswith("S "):
+            return part
+    return obs
+
+
+PROPS["C14"] = {
+    "streams": [{"name": "inst"}],
+    "model_is_spec": ["inst"],
+    "spec_theorem": "the model's link delay is Spec.peerDelay of the stored exchange (C14.extract_peer) and its Faulty transitions are those of C14.multi_responder_faulty / faulty_*",
+    "rule": "inst: mixed host histories with directed Pdelay exchanges on P2P ports (transmit timestamp, Pdelay_Resp, "
+            "Pdelay_Resp_Follow_Up from one or two responders, all orders, duplicates, losses, one-step and two-step responders, "
+            "wrong requester, stale sequence ids) in every port state. Compared: peer-delay measurements (bit-exact) and every "
+            "transition into or out of Faulty. Independent oracles: each link delay equals ((t4-corr-t1)-(t3-t2))/2 of one logged "
+            "request and one responder; a Faulty port emits no master traffic, feeds no sync/delay measurement and leaves Faulty "
+            "only through a completed exchange. distinct = distinct ops with a peer-delay measurement or a Faulty port",
+    "explanation": "Lean: extract_peer exactness, multi_responder_faulty, classify_false_iff, faulty_* inertness, faulty_recovers",
+    "assumptions": INST_ASSUME + ["Spec/Formulas.lean transcribes IEEE 1588-2019 11.4 (trusted)"],
+}
+
 
 def split_obs(obs):
     """(items, status, state) of an instance-stream observation line"""
@@ -141,6 +162,14 @@ def projection(pid, stream, profile):
             m = meas_items(obs, "e2e")
             return m if (m or ":meas" in obs) else None
         return f9
+    if pid == "C14":
+        def f14(op, obs):
+            m = meas_items(obs, "p2p")
+            st = state_part(obs)
+            if m or "Faulty" in st or ":demob" in obs:
+                return m + " | " + st + " | " + ("demob" if ":demob" in obs else "")
+            return None
+        return f14
     if pid == "C07":
         def f7(op, obs):
             return obs if "#ins:" in op else None
